@@ -60,13 +60,13 @@ func (l *lockedBuf) String() string {
 
 // Pool runs cases on worker processes.
 type Pool struct {
-	exe          string
-	confirming   bool          // confirmation / replay runs: no shortened watchdog
-	Watchdog     time.Duration // per call, for inputs of a few kB
-	PerKiB       time.Duration // ... plus this much per KiB of input
-	mu           sync.Mutex
-	restarts     int
-	hangs        int // calls that did not come back so far
+	exe        string
+	confirming bool          // confirmation / replay runs: no shortened watchdog
+	Watchdog   time.Duration // per call, for inputs of a few kB
+	PerKiB     time.Duration // ... plus this much per KiB of input
+	mu         sync.Mutex
+	restarts   int
+	hangs      int // calls that did not come back so far
 }
 
 func newPool() (*Pool, error) {
@@ -74,7 +74,9 @@ func newPool() (*Pool, error) {
 	if err != nil {
 		return nil, core.Infra("cannot find own executable: %v", err)
 	}
-	return &Pool{exe: exe, Watchdog: 30 * time.Second, PerKiB: 2 * time.Millisecond}, nil
+	// twice what the envelope allows in CPU time (judge.go): a call that the
+	// CPU clause would accept is never declared hanging
+	return &Pool{exe: exe, Watchdog: 2 * cpuFloorUs * time.Microsecond, PerKiB: 2 * cpuPerKiBUs * time.Microsecond}, nil
 }
 
 func (p *Pool) start() (*worker, error) {
@@ -151,7 +153,7 @@ func (p *Pool) budget(req *Req, n int) time.Duration {
 		w /= 4
 	}
 	p.mu.Unlock()
-	return w + time.Duration(n/1024)*p.PerKiB
+	return w + time.Duration(min(n/1024, maxLenKiB))*p.PerKiB
 }
 
 var fatalPat = regexp.MustCompile(`(?m)^(fatal error: [^\n]*|runtime: [^\n]*out of memory[^\n]*|panic: [^\n]*|signal: [^\n]*)`)
@@ -397,7 +399,7 @@ func tailStr(s string, n int) string {
 // Run executes the cases on `par` workers and calls sink for every result
 // (serialised).  skip, if not nil, is asked (under the same lock) before a
 // case is handed out.
-func (p *Pool) Run(reqs []*Req, par int, sink func(*Result), skip func(*Req) bool) error {
+func (p *Pool) Run(next func() *Req, par int, sink func(*Result), skip func(*Req) bool) error {
 	if par < 1 {
 		par = 1
 	}
@@ -423,7 +425,7 @@ func (p *Pool) Run(reqs []*Req, par int, sink func(*Result), skip func(*Req) boo
 			}
 		}()
 	}
-	for _, r := range reqs {
+	for r := next(); r != nil; r = next() {
 		mu.Lock()
 		stop := first != nil
 		skipped := !stop && skip != nil && skip(r)
@@ -496,4 +498,16 @@ func anyThreadRunnable(pid int) bool {
 		}
 	}
 	return false
+}
+
+// iterReqs turns a slice into the iterator Run wants.
+func iterReqs(reqs []*Req) func() *Req {
+	i := 0
+	return func() *Req {
+		if i >= len(reqs) {
+			return nil
+		}
+		i++
+		return reqs[i-1]
+	}
 }
